@@ -14,4 +14,12 @@ macro "go_mem " f:ident : tactic => `(tactic| (
     ok_ccall, ok_panic, and_true, true_and, implies_true, and_self]
   (try ((repeat' (first | intro _ | constructor)) <;> (first | omega | nlinarith | exact Int.mul_nonneg (by omega) (by omega) | simp_all | skip)))))
 
+macro "go_buf " f:ident : tactic => `(tactic| (
+  (try simp only [Pre, String.reduceEq, ↓reduceIte, or_false, false_or, or_true, true_or, or_self, if_true, if_false] at *)
+  simp only [$f:ident, allP_nil, allP_cons, allP_append, allP_ite, allP_flatMap_range, bufOk, bufNeeds, arg0, arg1, arg2, arg3,
+    String.reduceEq, ↓reduceIte, or_false, false_or, or_true, true_or, or_self, if_true, if_false,
+    List.mem_cons, List.mem_singleton, List.not_mem_nil, forall_eq, forall_eq_or_imp, Option.some.injEq, exists_eq_left', exists_eq_left,
+    Option.getD_some, Option.getD_none, and_true, true_and, implies_true, and_self, false_imp_iff, imp_false, not_false_eq_true, IsEmpty.forall_iff]
+  (try ((repeat' (first | intro _ | constructor)) <;> (first | omega | nlinarith | simp_all | skip)))))
+
 end Jedi.Go
